@@ -428,4 +428,51 @@ theorem avalanches_rot_of
       (avalanches o g s P (rot k ev)).Perm ((avalanches o g s P ev).map (rotAvalanche k)) :=
   fun ev k hf => avalanches_rot_of_facts P o g s ⟨hrot, hdisj, hcover⟩ ev k hf
 
+/-- The hypothesis `false ∈ occupancy ev` is satisfiable by a non-trivial event (wires 3, 4 and
+255 occupied). -/
+example : false ∈ occupancy (⟨fun w => if w = 3 ∨ w = 4 ∨ w = 255 then some [1] else none,
+    fun _ _ => none⟩ : Event Nat) := by decide +kernel
+
+/-! ### 7. full occupancy: the key lemma fails -/
+
+/-- Counter-model: the deconvolved input of a wire depends on its position inside the block
+(as with the banded, non-circulant response matrix of the code). -/
+def cmParams : Params Nat where
+  deconvBlock := fun sigs => (List.range sigs.length).map fun j => [j]
+  padDeconv := id
+
+/-- All 256 wires occupied. -/
+def cmEvent : Event Nat := ⟨fun _ => some [], fun _ _ => none⟩
+
+theorem cm_occupancy : occupancy cmEvent = List.replicate 256 true := by decide +kernel
+
+theorem cm_occupancy_rot : occupancy (rot 1 cmEvent) = List.replicate 256 true := by
+  decide +kernel
+
+theorem cm_ranges : contiguousRanges (List.replicate 256 true) = [(0, 256)] := by
+  decide +kernel
+
+theorem full_ring_not_equivariant_model :
+    (∀ b ∈ occupancy cmEvent, b = true) ∧
+    contiguousRanges (occupancy cmEvent) = [(0, 256)] ∧
+    contiguousRanges (occupancy (rot 1 cmEvent)) = [(0, 256)] ∧
+    wireInput (assignments cmParams (rot 1 cmEvent)) 8 = [8] ∧
+    wireInput (assignments cmParams cmEvent) 0 = [0] ∧
+    wireInput (assignments cmParams (rot 1 cmEvent)) ((0 + 8 * 1) % 256)
+      ≠ wireInput (assignments cmParams cmEvent) 0 := by
+  have h8 : wireInput (assignments cmParams (rot 1 cmEvent)) 8 = [8] := by
+    unfold assignments
+    rw [cm_occupancy_rot, cm_ranges]
+    decide +kernel
+  have h0 : wireInput (assignments cmParams cmEvent) 0 = [0] := by
+    unfold assignments
+    rw [cm_occupancy, cm_ranges]
+    decide +kernel
+  refine ⟨?_, ?_, ?_, h8, h0, ?_⟩
+  · rw [cm_occupancy]; intro b hb; exact (List.mem_replicate.1 hb).2
+  · rw [cm_occupancy, cm_ranges]
+  · rw [cm_occupancy_rot, cm_ranges]
+  · show wireInput (assignments cmParams (rot 1 cmEvent)) 8 ≠ _
+    rw [h8, h0]; decide
+
 end AlphaG.Matching
